@@ -224,8 +224,10 @@ static std::string dump(Context& ctx, bool withfn)
 static std::string runResult(Ctx& c, const char * head)
 {
   std::string o = head;
+  c.out.truncated = false;
   o += " out=" + hexenc(c.out.take());
   o += " steps=" + std::to_string(g_steps) + " intr=" + std::to_string((int)g_interrupted);
+  if (c.out.truncated) o += " trunc=1";
   return o;
 }
 
@@ -319,12 +321,14 @@ static void doOp(const std::vector<std::string>& f)
   }
   if (op == "new")
   {
+    freeCtx(f[1]);      // an id that is reused inside one case: the previous context must not be leaked (with its descriptors)
     Ctx c; c.out.open(); c.ctx = new Context(c.out.fd, c.out.fd);
     if (f.size() > 2 && f[2] == "1") c.ctx->trusted(true);
     g_ctx[f[1]] = c; reply("ok");
   }
   else if (op == "clone")
   {
+    if (f[1] != f[2]) freeCtx(f[2]);
     Ctx& s = C(f[1]); Ctx c; c.out.open(); c.ctx = s.ctx->clone(c.out.fd, c.out.fd);
     g_ctx[f[2]] = c; reply("ok");
   }
